@@ -1,6 +1,8 @@
 package main
 
 import (
+	"github.com/olive-io/bpmn/v2/pkg/tracing"
+	bpmn "github.com/olive-io/bpmn/v2"
 	"fmt"
 	"math/rand"
 	"strings"
@@ -376,6 +378,108 @@ func runC05(env *Env) {
 		}
 		in.Close()
 	}
+	c05LongLoop(env, rep)
 	env.WriteCases(rep, "", "Corr.C05corr", "list nat * nat * list nat * nat * list nat * list nat * list nat", items, "c05_mismatches")
 	env.WriteReport(rep)
+}
+
+// c05LongLoop: one instance goes round  X -> I1 (inclusive fork, two true conditions) -> A, B -> I2 (inclusive join) ->
+// C -> D -> X  many times. Per round: C is requested exactly once, after A and B were answered. Paced (the driver
+// waits 300 us before each answer) the same two gateway objects are activated 1300 times; at full speed the join's
+// picture of the live tokens -- kept up to date asynchronously from the trace stream -- lags behind now and then and
+// the join lets two tokens through for one fork activation (open finding C05-join-picture-lags).
+func c05LongLoop(env *Env, rep *Report) {
+	p := &Prog{}
+	p.Node("start", "start")
+	p.Node("xor", "X")
+	p.Node("incl", "I1")
+	p.Node("task", "A")
+	p.Node("task", "B")
+	p.Node("incl", "I2")
+	c := p.Node("task", "C")
+	c.Results = []string{"again"}
+	d := p.Node("xor", "D")
+	p.Node("end", "end")
+	p.Flow("start", "X", "")
+	p.Flow("X", "I1", "")
+	p.Flow("I1", "A", "1 == 1")
+	p.Flow("I1", "B", "2 == 2")
+	p.Flow("A", "I2", "")
+	p.Flow("B", "I2", "")
+	p.Flow("I2", "C", "")
+	p.Flow("C", "D", "")
+	p.Flow("D", "X", "again")
+	d.Default = p.Flow("D", "end", "").ID
+	xmlText := p.XML("")
+	type run struct {
+		pace   time.Duration
+		rounds int
+	}
+	runs := []run{{300 * time.Microsecond, 1300}, {0, 4000}}
+	if env.Thorough() {
+		runs = []run{{300 * time.Microsecond, 5000}, {0, 40000}}
+	}
+	for _, rn := range runs {
+		cs := fmt.Sprintf("inclusive fork (2 true conditions) and join in a loop, %d rounds in one instance, %v before each answer", rn.rounds, rn.pace)
+		env.Current(cs)
+		type obs struct {
+			node string
+			task bpmn.TaskTrace
+		}
+		evs := make(chan obs, 256)
+		defs, err := ParseDefs(xmlText)
+		must(err)
+		in, err := StartInst(defs, InstOpt{Vars: map[string]any{"again": false}, Raw: func(tr tracing.ITrace) {
+			if t, ok := tr.(bpmn.TaskTrace); ok {
+				evs <- obs{nodeId(t.GetActivity().Element()), t}
+			}
+		}})
+		must(err)
+		rep.Evaluations++
+		rep.Nontrivial++
+		rep.Count("long_loop")
+		twice, firstTwice, stalled := 0, "", ""
+	loop:
+		for r := 1; r <= rn.rounds; r++ {
+			done := map[string]bool{}
+			for {
+				var o obs
+				select {
+				case o = <-evs:
+				case <-time.After(tmoStep):
+					stalled = fmt.Sprintf("round %d: nothing requested for %v; answered in this round: %v", r, tmoStep, done)
+					break loop
+				}
+				if o.node == "C" {
+					complete := done["A"] && done["B"]
+					if !complete {
+						twice++
+						if firstTwice == "" {
+							firstTwice = fmt.Sprintf("round %d: C requested while answered = %v", r, done)
+						}
+					}
+					o.task.Do(bpmn.DoWithResults(map[string]any{"again": complete && r < rn.rounds}))
+					if complete {
+						break
+					}
+					continue
+				}
+				if rn.pace > 0 {
+					time.Sleep(rn.pace)
+				}
+				o.task.Do()
+				done[o.node] = true
+			}
+		}
+		if stalled != "" && rn.pace == 0 {
+			rep.Violate("C05-join-picture-lags", cs, fmt.Sprintf("%s (%d surplus requests of C before)", stalled, twice))
+		} else if stalled != "" {
+			rep.Violate("C05-join", cs, stalled)
+		} else if twice > 0 {
+			rep.Violate("C05-join-picture-lags", cs, fmt.Sprintf("the join let a token through %d times without both branches of the round having arrived (a second token for one fork activation), first: %s", twice, firstTwice))
+		} else if !in.WaitCease(tmoStep) {
+			rep.Violate("C05-join", cs, "all rounds done, the instance did not complete")
+		}
+		in.Close()
+	}
 }
